@@ -142,14 +142,18 @@ void program_udp_nat_resolver()
 	udp::socket& u2 = *new udp::socket(std::move(u2a));
 	T(300, ep_code(u1.local_endpoint(ec).address(), u1.local_endpoint(ec).port()));
 	static unsigned char rb[8]; static udp::endpoint from;
+	udp::socket* up = &u2;
 	std::function<void(error_code const&, std::size_t)> on_rx = [&](error_code const& e, std::size_t n)
 	{
 		T(301, now_ns(), ecv(e), long(n));
 		if (e) return;
 		T(302, ep_code(from.address(), from.port()), rb[0], rb[1]);
-		u2.async_receive_from(asio::buffer(rb, 8), from, on_rx);
+		up->async_receive_from(asio::buffer(rb, 8), from, on_rx);
 	};
 	u2.async_receive_from(asio::buffer(rb, 8), from, on_rx);
+	// ... and moved once more while that receive is outstanding (the operation travels with the socket)
+	udp::socket& u3 = *new udp::socket(std::move(u2));
+	up = &u3;
 	udp::resolver res(i1);
 	res.async_resolve("peer.test", "6000", [&](error_code const& e, udp::resolver::results_type r)
 	{
@@ -163,9 +167,59 @@ void program_udp_nat_resolver()
 	res.async_resolve("10.0.0.9", "1", [&](error_code const& e, udp::resolver::results_type r) { T(306, now_ns(), ecv(e), long(r.size())); });
 	res.async_resolve("nohost.test", "1", [&](error_code const& e, udp::resolver::results_type r) { T(307, now_ns(), ecv(e), long(r.size())); });
 	{ long const n = long(s.run()); T(308, n, now_ns()); }
-	u1.close(ec); u2.close(ec);
+	u1.close(ec); u2.close(ec); u3.close(ec);
 	s.run();
+	delete &u3;
 	delete &u2;
+}
+
+// the library's own default_config, one object serving every simulation of this program in both executions
+// (build() / clear() are called by each simulation): DSL-modem queues per address, 30 ms network
+default_config g_dc;
+void program_default_config()
+{
+	simulation s(g_dc);
+	asio::io_context i1(s, A1), i2(s, A2);
+	error_code ec;
+	udp::socket u1(i1), u2(i2);
+	u1.open(udp::v4(), ec); u1.non_blocking(true); u1.bind(udp::endpoint(A1, 5000), ec);
+	u2.open(udp::v4(), ec); u2.non_blocking(true); u2.bind(udp::endpoint(A2, 6000), ec);
+	static unsigned char rb[8], rb1[8]; static udp::endpoint from, from1;
+	u2.async_receive_from(asio::buffer(rb, 8), from, [&](error_code const& e, std::size_t n)
+	{
+		T(401, now_ns(), ecv(e), long(n));
+		if (e) return;
+		T(402, ep_code(from.address(), from.port()), rb[0], rb[1]);
+		u2.send_to(asio::buffer(rb, n), from, 0, ec);
+	});
+	u1.async_receive_from(asio::buffer(rb1, 8), from1, [&](error_code const& e, std::size_t n) { T(403, now_ns(), ecv(e), long(n)); if (!e) T(404, ep_code(from1.address(), from1.port()), rb1[0], rb1[1]); });
+	u1.send_to(asio::buffer(g_payload, 3), udp::endpoint(A2, 6000), 0, ec);
+	T(405, ecv(ec));
+	tcp::acceptor acc(i2); acc.open(tcp::v4(), ec); acc.bind(tcp::endpoint(A2, 7000), ec); acc.listen(5, ec);
+	tcp::socket srv(i2), cli(i1);
+	static unsigned char tb[16];
+	std::function<void()> rd = [&]()
+	{
+		srv.async_read_some(asio::buffer(tb, 16), [&](error_code const& e, std::size_t n)
+		{
+			T(406, now_ns(), ecv(e), long(n));
+			if (e) return;
+			for (std::size_t i = 0; i < n; ++i) T(407, tb[i]);
+			rd();
+		});
+	};
+	acc.async_accept(srv, [&](error_code const& e) { T(408, now_ns(), ecv(e)); if (e) return; srv.non_blocking(true); rd(); });
+	cli.open(tcp::v4(), ec);
+	cli.async_connect(tcp::endpoint(A2, 7000), [&](error_code const& e)
+	{
+		T(409, now_ns(), ecv(e));
+		if (e) return;
+		cli.non_blocking(true);
+		cli.async_write_some(asio::buffer(g_payload, 6), [&](error_code const& e2, std::size_t n) { T(410, now_ns(), ecv(e2), long(n)); cli.close(ec); });
+	});
+	{ long const n = long(s.run()); T(411, n, now_ns()); }
+	srv.close(ec); acc.close(ec); u1.close(ec); u2.close(ec);
+	s.run();
 }
 
 // a different simulation that runs in between: leaves the clock elsewhere, uses other ports, other objects
@@ -186,7 +240,8 @@ void run_program(int p)
 {
 	if (p == 0) program_timers();
 	else if (p == 1) program_tcp_pcap();
-	else program_udp_nat_resolver();
+	else if (p == 2) program_udp_nat_resolver();
+	else program_default_config();
 }
 
 } // namespace
@@ -194,7 +249,7 @@ void run_program(int p)
 extern "C" int harness_main()
 {
 	for (int i = 0; i < 6; ++i) g_payload[i] = vp_sym_byte();
-	int const p = vp_choose(3);
+	int const p = vp_choose(4);
 	vp_scenario(p);
 	static trace t1, t2;
 	g_tr = &t1; run_program(p);
